@@ -14,11 +14,13 @@ ASSUME = ["one outstanding wait per timer, no second connect while one is pendin
           "a refused connect parked in the 50 ms connect timer counts as already completed: close/cancel/destroy deliver connection_refused, once"]
 
 def idle_sets(lines):
-    """(kind, k) -> socket objects with no operation outstanding at that boundary, read off the
-    model's prediction of the base scenario (`marks on`): an operation is outstanding from the
-    call that names its handler until that handler is invoked; the peer of an accept counts as
-    busy; self-perpetuating loops keep their socket busy for good"""
+    """(kind, k) -> (socket objects with no operation outstanding at that boundary, objects with one,
+    peer sockets of an accept / accept_ep that is still pending), read off the model's prediction of
+    the base scenario (`marks on`): an operation is outstanding from the call that names its handler
+    until that handler is invoked; the peer of an accept counts as busy - and must stay alive - exactly
+    until the accept's handler ran; self-perpetuating loops keep their socket busy for good"""
     out = {}; busy = {}   # obj -> set of handler tokens
+    pend = {}             # accept handler -> its peer socket
     for l in lines:
         tk = l.split()
         if not tk: continue
@@ -29,13 +31,14 @@ def idle_sets(lines):
             hs = [t for t in op[1:] if re.match(r"h\d+$", t)]
             for h in hs: busy.setdefault(obj, set()).add(h)
             if m in ("accept", "accept_ep") and len(op) > 1:
-                for h in hs: busy.setdefault(op[1], set()).add(h)
+                for h in hs: busy.setdefault(op[1], set()).add(h); pend[h] = op[1]
             if m in ("read_loop", "write_loop"): busy.setdefault(obj, set()).add("loop")
             if m == "destroy": busy.setdefault(obj, set()).add("gone")
         elif tk[0] == "H":
             for o in busy: busy[o].discard(tk[1])
+            pend.pop(tk[1], None)
         elif tk[0] == "M" and len(tk) > 1:
-            out[(tk[1][0], int(tk[1][1:]))] = (set(o for o in busy if not busy[o]), set(o for o in busy if busy[o]))
+            out[(tk[1][0], int(tk[1][1:]))] = (set(o for o in busy if not busy[o]), set(o for o in busy if busy[o]), set(pend.values()))
     return out
 
 def boundaries(bases, wd):
@@ -58,6 +61,10 @@ def boundaries(bases, wd):
         counts[i] = min(n, 400)
         # clock steps: at most one per `K idle` line (the last ones fire nothing)
         advs[i] = min(sum(1 for l in lines if l.startswith("K idle")), 400)
+        # the model marks every boundary it passes (`M s<k>` / `M a<k>`): with marks the counts are exact
+        # (run()'s n also counts the timers fired, so it overestimates the number of handler boundaries)
+        ms = sum(1 for l in lines if l.startswith("M s")); ma = sum(1 for l in lines if l.startswith("M a"))
+        if ms or ma: counts[i] = min(ms, 400); advs[i] = min(ma, 400)
         IDLE[i] = idle_sets(lines)
     return counts, advs
 
@@ -82,7 +89,7 @@ def nontrivial(impl):
     return sum(1 for l in impl if l.startswith("H ")) >= 2 and any(re.match(r"C [sa]\d+ ", l) for l in impl)
 
 CHECK = ScenarioCheck("C04", ["SimVerif.Props.C04"], "kernel", gen, spec_c04, nontrivial,
-    "base scenarios starting every kind of asynchronous operation (timer wait; TCP connect/read/write/wait-for-read; accept in its three forms; UDP receive / wait-for-read / wait-for-write; resolve) on lossy and loss-free routes; for every event boundary k of a base - after each handler, and after each clock step before the first expired timer's completion runs - (all k in the thorough tier, a sample in the quick tier) one run per intervention (cancel, close, close() without argument, destroy, re-arm, a new operation of the same kind) on a participating object, to quiescence; non-trivial = >= 2 completions and an intervention executed; distinct = distinct implementation trace",
+    "base scenarios starting every kind of asynchronous operation (timer wait; TCP connect/read/write/wait-for-read; accept in its three forms; UDP receive with and without sender endpoint / wait-for-read / wait-for-write; resolve) on lossy and loss-free routes; for every event boundary k of a base - after each handler, and after each clock step before the first expired timer's completion runs - (all k in the thorough tier, a sample in the quick tier; every k of a stated range for the directed bases bd_*, in both tiers) one run per intervention (cancel, close, close() without argument, destroy, re-arm, a new operation of the same kind) on a participating object, to quiescence; the peer socket of an accept is destroyed / moved only at boundaries where that accept is no longer pending; monitor: never inline, at most once, exactly once after an intervention, none discarded, and ec=operation_aborted wherever the trace shows the operation cannot have completed before the intervention (timer before expiry, lookup before its latency, accept without any connect, UDP receive without any datagram, TCP read on an established connection nobody wrote to); non-trivial = >= 2 completions and an intervention executed; distinct = distinct implementation trace",
     TRUSTED, ASSUME, spec_scn=True)
 
 def run(tier, seed, replay):
